@@ -180,7 +180,7 @@ def _dir_image(env):
     return files, dirs
 
 
-def h_read_only(cut: int, template: str, torn: bool, idx: str = 'own', travel: int = 0) -> None:
+def h_read_only(cut: int, template: str, torn: bool, idx: str = 'own', travel: int = 0, via: str = 'ctor') -> None:
     """Read-only open (optionally of a file ending in an unfinished transaction): no file is
     modified, every writer raises ReadOnlyError, reads agree with the committed history."""
     with untraced():
@@ -206,11 +206,9 @@ def h_read_only(cut: int, template: str, torn: bool, idx: str = 'own', travel: i
             env.fs.put(DATA + '.index', foreign)
         elif idx == 'none':
             env.fs.os.remove(DATA + '.index')
-    short_tail = False
+    short_tail = False      # (a tail shorter than a transaction header used to be excused here: repaired by 0447105)
     if torn:
         assume(base < cut <= len(full))
-        # a tail shorter than one transaction header makes FileIterator raise CorruptedDataError by design
-        short_tail = cut < base + 23
         env.fs.put(DATA, full, symsize=cut)
     else:
         assume(cut == 0)
@@ -222,7 +220,7 @@ def h_read_only(cut: int, template: str, torn: bool, idx: str = 'own', travel: i
     # the file must make no difference
     kw = {}
     model = h.m
-    if torn or idx == 'foreign':
+    if torn or idx == 'foreign' or via == 'config':
         assume(travel == 0)
     else:
         tk = choose(travel, len(h.m.txns) + 1)
@@ -233,7 +231,23 @@ def h_read_only(cut: int, template: str, torn: bool, idx: str = 'own', travel: i
             model = RevStore([t_ for t_ in h.m.txns if t_.tid < stop_tid])
             note('travel', tk)
     try:
-        r = env.filestorage(read_only=True, **kw)
+        if via == 'config':
+            # the same open spelled as a configuration section
+            import ZODB.config
+            with untraced():
+                import io
+                import ZConfig
+                import ZConfig.datatypes as ZD
+                real_os = ZD.os
+                ZD.os = env.fs.os          # ZConfig checks that the directory exists: let it look at the same file system
+                try:
+                    cfg, _h = ZConfig.loadConfigFile(ZODB.config.getStorageSchema(), io.StringIO(
+                        '<filestorage>\n  path %s\n  read-only true\n</filestorage>\n' % DATA))
+                finally:
+                    ZD.os = real_os
+            r = ZODB.config.storageFromConfig(cfg.storage)      # = section.open(): ZODB.config.FileStorage.open
+        else:
+            r = env.filestorage(read_only=True, **kw)
     except Exception as ex:
         fail('read-only open raised', type(ex).__name__, str(ex)[:200])
     with untraced():
@@ -363,9 +377,11 @@ HARNESSES = [
                     'every writer raises ReadOnlyError, also with an unfinished transaction of any torn length at the end',
             symbolic='cut (length of the torn tail, symbolic file length); all 9 writer API calls are tried on every path',
             bounds='templates T1, T4', oracle='operation log + directory image + RevStore battery',
-            code=['FileStorage.__init__ (read_only)', 'read_index (read_only branches)', 'store/tpc_begin/... read-only guards'],
-            quick=dict(timeout=170, shards=shards(template=['T1'], torn=[False, True]) + shards(template=['T1'], torn=[False], idx=['foreign', 'none'])),
-            thorough=dict(timeout=900, shards=shards(template=['T1', 'T4', 'T2'], torn=[False, True], idx=['own', 'foreign', 'none']))),
+            code=['FileStorage.__init__ (read_only)', 'read_index (read_only branches)', 'store/tpc_begin/... read-only guards', 'ZODB.config.FileStorage.open (via=config)'],
+            quick=dict(timeout=170, shards=shards(template=['T1'], torn=[False, True], via=['ctor']) + shards(template=['T1'], torn=[False], idx=['foreign', 'none'], via=['ctor'])
+                       + shards(template=['T1'], torn=[False, True], idx=['own'], travel=[0], via=['config'])),
+            thorough=dict(timeout=900, shards=shards(template=['T1', 'T4', 'T2'], torn=[False, True], idx=['own', 'foreign', 'none'], via=['ctor'])
+                          + shards(template=['T1', 'T4'], torn=[False, True], idx=['own', 'none'], travel=[0], via=['config']))),
     Harness('read_only_live', h_read_only_live,
             decides='a read-only open placed at any file-operation of a writer\'s commit sees a committed prefix and changes nothing',
             symbolic='at (injection point over the writer\'s file operations)', bounds='template T1 + one commit',
